@@ -240,7 +240,89 @@ def rule_eat_blanks(ctx):
     for opt in sites:
         rets = [n for n in ci.all_nodes() if n["k"] == "ret" and expr_str(ci, n["i"]) == "return false" and ("options::%s()" % opt, True) in _conds(ci, n)]
         r.check(len(rets) >= 1, "can_increase_nl/vetoes-under-%s" % opt, db.loc(ci, ci.l0), "can_increase_nl no longer returns false under %s" % opt)
+    # priority of the veto: with the brace next to the newline and the eat option on, no `return true` of can_increase_nl is
+    # reachable except the documented nl_inside_* rules (blank lines *inside* an otherwise empty namespace / function body)
+    import re
+    from collections import deque
+    for opt, brace_fact in (("eat_blanks_before_close_brace", "next->Is(CT_BRACE_CLOSE)"), ("eat_blanks_after_open_brace", "prev->Is(CT_BRACE_OPEN)")):
+        forced = {brace_fact: True, "options::%s()" % opt: True}
+        mrecv = re.match(r"^(\w+)->Is\((CT_\w+)\)$", brace_fact)
+        seen = set()
+        dq = deque([ci.entry])
+        hits = []
+        while dq:
+            b = dq.popleft()
+            if b in seen:
+                continue
+            seen.add(b)
+            for n in ci.blocks[b]["n"]:
+                if n["k"] == "ret" and expr_str(ci, n["i"]) == "return true":
+                    hits.append(n)
+            ss = list(enumerate(ci.succ[b]))
+            t = ci.blocks[b].get("term")
+            c = t.get("lc", t.get("c")) if t else None
+            if c is not None and len(ci.succ[b]) == 2:
+                cs = expr_str(ci, c)
+                val = forced.get(cs)
+                m2 = re.match(r"^(\w+)->Is\((CT_\w+)\)$", cs)
+                if val is None and m2 and mrecv and m2.group(1) == mrecv.group(1) and m2.group(2) != mrecv.group(2):
+                    val = False       # one chunk has one type
+                if val is True:
+                    ss = [ss[0]]
+                elif val is False:
+                    ss = [ss[1]]
+            for i, s2 in ss:
+                if s2 >= 0:
+                    dq.append(s2)
+        r.seen(len(seen))
+        for n in hits:
+            cs = _conds(ci, n)
+            inside = [c for c, pol in cs if pol is True and re.match(r"^options::nl_inside_\w+\(\) > 0", c)]
+            r.check(bool(inside), "can_increase_nl/%s-has-priority/%s" % (opt, ",".join(sorted(set(re.findall(r"options::(\w+)\(\)", " ".join(c for c, pol in cs if pol is True)))))[:60]),
+                    db.loc(ci, n), "with `%s` and %s set, can_increase_nl() can still return true here (under %s): the blank lines next to the brace "
+                    "are put back after they were eaten" % (brace_fact, opt, [c for c, pol in cs if pol is True][-3:]))
     r.floor(5)
 
 
-RULES = [rule_cap_on_every_newline, rule_cap_after_inserts, rule_guard_coverage, rule_eof_families, rule_eat_blanks]
+def rule_runs_not_chunks(ctx):
+    """nl_max bounds a *run* of line breaks in the output; the cap of do_blank_lines() is applied per newline chunk, so two
+    newline chunks must never be printed back to back.  newlines_cleanup_dup() merges neighbours, but virtual braces
+    (zero-length, never printed) can sit between two newline chunks - after a real `}` was made virtual by
+    mod_full_brace_*=remove - and then the two runs add up."""
+    db = ctx.db
+    from ..flow import ReachingDefs, var_id
+    r = ctx.rule("runs-not-chunks", "newlines_cleanup_dup() compares a newline chunk with the next *printed* chunk: the chunk tested by the "
+                 "second Is(CT_NEWLINE) is reached by a navigation that skips virtual braces (GetNext*Nvb / a loop over IsVBrace())")
+    f = db.fn("newlines_cleanup_dup")
+    tests = []
+    for b, blk in f.blocks.items():
+        t = blk.get("term")
+        c = t.get("lc", t.get("c")) if t else None
+        if c is not None:
+            m = re.match(r"^(\w+)->Is\(CT_NEWLINE\)$", expr_str(f, c))
+            if m:
+                tests.append((b, m.group(1), c))
+    r.require(len(tests) >= 2, "newlines_cleanup_dup: the pair of Is(CT_NEWLINE) tests was not found")
+    # the second operand: the one tested under the fact that the first is a newline
+    second = [(b, v, c) for b, v, c in tests if any(pol is True and cs.endswith("->Is(CT_NEWLINE)") for cs, pol in _conds(f, f.nodes[c]))]
+    r.require(second, "newlines_cleanup_dup: no Is(CT_NEWLINE) test under the fact that the other chunk is a newline")
+    rd = ReachingDefs(f, db)
+    for b, v, c in second:
+        ref = None
+        for x in f.nodes.values():
+            if x["k"] == "ref" and x.get("n") == v and f.nblock.get(x["i"]) == b:
+                ref = x
+        skips = False
+        if ref is not None:
+            for info in rd.at(c, var_id(ref)):
+                rhs = rd.rhs_of(info)
+                if rhs is not None and ("Nvb" in expr_str(f, rhs)):
+                    skips = True
+        loops_vb = any("IsVBrace()" in expr_str(f, (blk.get("term") or {}).get("c")) for blk in f.blocks.values() if (blk.get("term") or {}).get("c") is not None)
+        r.check(skips or loops_vb, "newlines_cleanup_dup/skips-virtual-braces", db.loc(f, f.nodes[c]),
+                "the neighbour `%s` is the next chunk, not the next printed chunk: NEWLINE VBRACE_CLOSE NEWLINE is printed as one run of line "
+                "breaks whose length is the sum of two separately capped counts (nl_max exceeded)" % v)
+    r.floor(1)
+
+
+RULES = [rule_cap_on_every_newline, rule_cap_after_inserts, rule_guard_coverage, rule_eof_families, rule_eat_blanks, rule_runs_not_chunks]
